@@ -14,6 +14,7 @@ NEUTRALS = [{'name': 'tick conversion through a local wrapper', 'file': 'partitu
 
 # changes made by sub-agents that were given only the property text (see /verif/seeded/<id>/): each must stay reported
 SEEDED = [
+    {'name': 'seeded change C08-r5b', 'seed': 'C08-r5b', 'expect': '|EQ-complete|'},
     {'name': 'seeded change C08-r4b', 'seed': 'C08-r4b', 'expect': '|CLOCK|'},
     {'name': 'seeded change C08-r4a', 'seed': 'C08-r4a', 'expect': '|F7c|'},
     {'name': 'seeded change C08-r3', 'seed': 'C08-r3', 'expect': '|ITER-MUT|'},
